@@ -335,17 +335,19 @@ Definition raw_text_canonical (b : list bool) : bool :=
   && (List.length (trim txt) =? List.length txt)%nat                   (* no blank to trim *)
   && forallb negb (skipn (6 * List.length cs) b).                      (* sub-character padding zero *)
 
-(* [exact_len]: the text is sent with exactly the characters it has (types 12 and 14); every other text field is sent
-   padded with '@' to its full width, so a shorter form of it (the name extension of type 21) is a form the
-   re-encoding pads: its value is unchanged, its bits are not *)
-Definition raw_fix_kind (k : kind) (full : bool) (b : list bool) : bool :=
+(* A text field is sent in one of two ways.  [exact]: with exactly the characters it has (the text of types 12 and 14, which
+   ends the message): any '@' in the received field is cut by the decoder, i.e. a normalisation.  Otherwise padded with
+   '@' to its full width: '@' padding after the text is the wire form itself, but a shorter form of the field (the name
+   extension of type 21) is re-encoded at full width: its value is unchanged, its bits are not. *)
+Definition raw_fix_kind (k : kind) (full exact : bool) (b : list bool) : bool :=
   match k with
   | KROT => let c := sval_ b in
             match spec_turn c with
             | SFrac n d => rot_code n d =? c
             | _ => true
             end
-  | KT => full && raw_text_canonical b
+  | KT => raw_text_canonical b
+          && (if exact then forallb (fun c => negb (c =? 0)) (sixbit_codes b (List.length b)) else full)
   | KE e => zmem_ (uval b) (senum_defined e)
   | _ => true
   end.
@@ -353,12 +355,12 @@ Definition raw_fix_kind (k : kind) (full : bool) (b : list bool) : bool :=
 (* [covered]: the part of the field that is inside a payload of n bits *)
 Definition covered (f : sfield) (n : nat) : nat := Nat.min (s_width f) (n - s_off f).
 
+Definition exact_text (v : variant) : bool := match v with V12 | V14 => true | _ => false end.
+
 Definition raw_unnormalised (v : variant) (b : list bool) : bool :=
   forallb (fun f => let c := covered f (List.length b) in
                     (c =? 0)%nat
-                    || raw_fix_kind (s_kind f)
-                         ((c =? s_width f)%nat || match v with V12 | V14 => true | _ => false end)
-                         (sub b (s_off f) c)) (spec_layout v).
+                    || raw_fix_kind (s_kind f) (c =? s_width f)%nat (exact_text v) (sub b (s_off f) c)) (spec_layout v).
 
 (* inputs on which the unchanged implementation is known to violate C08: a variable-length text at the end of the
    message (types 12, 14) that is present but decodes to the empty string *)
@@ -369,4 +371,12 @@ Definition c08_empty_text (v : variant) (b : list bool) : bool :=
                       negb (c =? 0)%nat && (List.length (spec_text (sub b (s_off f) c)) =? 0)%nat
                     | _, _ => false
                     end) (spec_layout v).
+(* ... and on which only its bit-for-bit clause is violated: the payload contains sub-character padding bits of a text
+   field whose width is not a multiple of six (type 14 at 1007/1008 bits, type 21 beyond 356 bits); they are not re-emitted *)
+Definition c08_pad_dropped (v : variant) (b : list bool) : bool :=
+  existsb (fun f => match s_kind f with
+                    | KT => negb (s_width f mod 6 =? 0)%nat && (6 * (s_width f / 6) <? covered f (List.length b))%nat
+                    | _ => false
+                    end) (spec_layout v).
 Definition c08_guard (v : variant) (b : list bool) : bool := negb (c08_empty_text v b).
+Definition c08_guard_bits (v : variant) (b : list bool) : bool := negb (c08_empty_text v b) && negb (c08_pad_dropped v b).
